@@ -101,9 +101,9 @@ pub fn construct(f: &FactSet, path: PathKind, rng: &mut Rng, tag: &str) -> Built
     match path {
         PathKind::BuilderMinimal => drive::via_builder(f, Some(rng), false),
         PathKind::BuilderDefaults => drive::via_builder(f, Some(rng), true),
-        PathKind::BytesV1 => drive::via_bytes(f, 1).1,
-        PathKind::BytesV2 => drive::via_bytes(f, 2).1,
-        PathKind::BytesV3 => drive::via_bytes(f, 3).1,
+        PathKind::BytesV1 => drive::via_bytes_variant(f, 1, rng).1,
+        PathKind::BytesV2 => drive::via_bytes_variant(f, 2, rng).1,
+        PathKind::BytesV3 => drive::via_bytes_variant(f, 3, rng).1,
         PathKind::Jax | PathKind::JaxTransitive => {
             let o = JaxOpts {
                 shuffle: true,
@@ -113,7 +113,7 @@ pub fn construct(f: &FactSet, path: PathKind, rng: &mut Rng, tag: &str) -> Built
             drive::via_jax(f, rng, &o, path == PathKind::JaxTransitive, tag)
         }
         PathKind::RoundTrip => {
-            let first = drive::via_bytes(f, 3).1?;
+            let first = drive::via_bytes_variant(f, 3, rng).1?;
             match drive::as_bytes(&first) {
                 Ok(b) => drive::from_bytes(&b),
                 Err(p) => Err(drive::BuildFail::Panic(p)),
